@@ -143,7 +143,7 @@ PROPS = {
         "cold-process thread stress with barrier-released first calls (shared and per-thread data) compared with reference results, in run-time-dispatch and no-std builds; ThreadSanitizer build and Miri data-race detector (many seeds) on the same worker; hand-off of live instances between threads; interleaved-instances shadow check",
         "Exploration of schedules: each trial is a fresh process in which T threads make their first calls concurrently (lockstep or random order); the evidence counts entry points that were really entered concurrently.",
         "Race detection is limited to what TSan / Miri intercept and to schedules that occurred; weak-memory outcomes beyond x86-TSO / Miri's model are out of reach.",
-        "case = one cold process (threads, order mode, seed; one in three a bulk trial with 4-64 KiB per cipher call), one hand-off trial (instances in mid-stream / mid-message passed between fresh threads for 1-3 rounds) or one interleaving of up to 12 instances; evaluations = results compared; distinct_nontrivial = distinct observed before/after interleavings of concurrent first calls at a one-time-initialised entry point",
+        "case = one cold process (threads, order mode, seed; one in three a bulk trial with 4-64 KiB per cipher call), one hand-off trial (instances in mid-stream / mid-message passed between fresh threads for 1-3 rounds), one constructor-stress trial (8 threads building and using objects from their own keys, 400 x budget iterations each) or one interleaving of up to 12 instances; evaluations = results compared; distinct_nontrivial = distinct observed before/after interleavings of concurrent first calls at a one-time-initialised entry point",
         (20000, 1000000), [REF, "schedules are sampled by the OS / Miri scheduler, not enumerated"],
         require_classes=["first-call-overlap/Groestl256/", "interleave/instances="]),
     "C19": P(
@@ -185,6 +185,8 @@ def jobs(pid, tier, seed):
         js += J(pid, "std-dbg", 4, (1000 if big else 500) if q else (60000 if big else 15000))
         if pid in ("C04", "C06"):
             js += J(pid, "portable-rel", 2, 1000 if q else 15000)
+            if q:
+                js += J(pid, "nostd-sse2", 1, 600)  # a compile-time dispatch arm in the quick tier too
             if not q:
                 for c in NOSTD:
                     js += J(pid, c, 1, 8000)
@@ -229,6 +231,8 @@ def jobs(pid, tier, seed):
         js += J(pid, "std-dbg", 6, 5000 if q else 500000)
         js += J(pid, "portable-rel", 2, 4000 if q else 100000)
         js += J(pid, "portable-dbg", 2, 2000 if q else 30000)
+        if q:
+            js += J(pid, "nostd-ssse3", 1, 3000)  # a compile-time dispatch arm in the quick tier too
         if not q:
             for c in NOSTD:
                 js += J(pid, c, 1, 100000)
